@@ -61,7 +61,7 @@ CHECKS["C18"] = ("invariant checking over generated and injected sources (token 
          "Token span invariants (bounds, order, line = newline count, literal = source slice) on every corpus file and on generated programs with seeded injections of multi-byte text, CRLF, comments, heredoc/nowdoc, interpolation, full-width space and inline HTML at token boundaries; and generated one-statement-per-line programs with exactly one planted fault (five runtime faults, three parse faults) moved over all top-level positions, whose printed file:line must be the planted line.",
          "Only the line of a diagnostic is asserted; a lexer crash is C01's subject and makes a span case unjudgeable here.")
 CHECKS["C20"] = ("metamorphic repetition testing (fresh processes and fresh VMs), generated enumeration-order programs against a known insertion order, and ordered-pair residue testing",
-         "Generated class and control-flow programs run k times (6 quick / 21 thorough) on fresh VMs in one process and in fresh CLI processes with byte-identical output, diagnostics and status required; declaration/insertion order of properties and keyed entries through foreach / json_encode / get_object_vars compared with the order the generator knows; every ordered pair of residue-leaving programs run as [A, B] vs [B] in one process; the statically deterministic corpus files repeated in fresh processes.",
+         "Generated class and control-flow programs run k times (6 quick / 21 thorough) on fresh VMs in one process and in fresh CLI processes with byte-identical output, diagnostics and status required; declaration/insertion order of properties and keyed entries through foreach / json_encode / keyed library calls, after unset and re-insertion, and through json_decode (document order) compared with the order the generator knows; every ordered pair of residue-leaving programs run as [A, B] vs [B] in one process; the statically deterministic corpus files repeated in fresh processes.",
          "Go map-iteration randomisation is the adversary: k = 21 leaves a 2-way order dependence undetected with probability 2^-20; corpus determinism is decided by a static denylist, never by running twice.")
 CHECKS["C16"] = ("translation validation: generated programs compiled by `origami compile`, built into one Go binary per batch and run compiled vs interpreted (differential on stdout, exit status, diagnostic)",
          "Batches of generated programs (control flow, namespaced exceptions, expressions, class programs, class hierarchies, multi-namespace files, user attributes), 20 fixed class chains, 20 hand-written programs for language areas the generators do not reach (float literals, global, statics, references, closures, constants, enums ...) and the deterministic corpus files: each is translated by its own compile invocation, the generated Go sources are built once per batch against /repo, and the compiled and interpreted runs must agree on stdout bytes, exit status and the location-free diagnostic; a rejected file must be reported by name, generated code must build.",
